@@ -21,7 +21,7 @@
                            later part starts with '.')
    All statements are for max_size = None (the size limit is property C09). *)
 From Coq Require Import List NArith Bool.
-From SV Require Import lib.Bytes model.Data proof.Data_lemmas.
+From SV Require Import lib.Bytes model.Data proof.Data_lemmas model.DataObj proof.DataObj_lemmas.
 Import ListNotations.
 Open Scope N_scope.
 
@@ -118,3 +118,27 @@ Theorem C05_midline_dot_part_altered :
   /\ expected (concat [[97]; [46; 98]]) = [97; 46; 98; 13; 10].
 Proof. exact midline_dot_part_altered. Qed.
 Print Assumptions C05_midline_dot_part_altered.
+
+(* Re-use of one DataSender object (model/DataObj.v): __iter__ / send build
+   fresh generators from the stored parts and assign nothing, so the output is
+   a function of the parts: the first and every later emission of the same
+   object (iterated, sent, sent to another IO, measured and then sent) is the
+   same complete wire string `send parts`, and the object is unchanged. *)
+Theorem C05_sender_output_is_a_function_of_the_parts : forall (parts : list bytes) (n : nat),
+  emissions (sender_new parts) n = repeat (send parts) n
+  /\ (forall w, In w (emissions (sender_new parts) n) -> w = send parts)
+  /\ snd (sender_send (sender_new parts)) = sender_new parts.
+Proof. exact sender_output_function. Qed.
+Print Assumptions C05_sender_output_is_a_function_of_the_parts.
+
+(* hence every emission, not only the first, round-trips *)
+Theorem C05_every_emission_round_trips : forall (parts : list bytes) (n : nat) (w t buf : bytes) (chunks : list bytes),
+  In w (emissions (sender_new parts) n) ->
+  dot_parts_at_bol parts ->
+  Forall (fun c => c <> []) chunks ->
+  buf ++ concat chunks = w ++ t ->
+  exists rb rest,
+    dr_recv None buf chunks = ROk (expected (concat parts)) rb rest
+    /\ rb ++ concat rest = t.
+Proof. exact every_emission_round_trips. Qed.
+Print Assumptions C05_every_emission_round_trips.
